@@ -167,8 +167,17 @@ class Data(abstract.Container):
         array = self._get_Array().array
 
         # Set the numpy array fill value
-        if np.ma.isMA(array):
-            array.set_fill_value(self.get_fill_value(None))
+        if np.ma.isMA(array) and array is not np.ma.masked:
+            # (The numpy masked constant, e.g. a missing 0-d value
+            # read from a dataset, has no fill value of its own.)
+            try:
+                array.set_fill_value(self.get_fill_value(None))
+            except (TypeError, ValueError):
+                # The fill value can not be the fill value of a numpy
+                # array of this data type (e.g. it came from a
+                # vector-valued or text-valued missing_value
+                # property), so keep the array's own fill value.
+                pass
 
         return array
 
